@@ -121,7 +121,7 @@ LABEL = {ps.ProcessState.CREATED: 'CREATED', ps.ProcessState.RUNNING: 'RUNNING',
 
 USER_HOOKS = ['on_run', 'on_wait', 'on_finish', 'on_except', 'on_kill', 'on_running', 'on_waiting', 'on_finished',
               'on_excepted', 'on_killed', 'on_exit_running', 'on_exit_waiting', 'on_pausing', 'on_paused',
-              'on_playing', 'on_close']
+              'on_playing', 'on_close', 'on_output_emitting', 'on_output_emitted']
 
 
 class Hooks:
